@@ -55,6 +55,10 @@ func (pass *DisjunctionWithNullToOptional) processDisjunction(visitor *Visitor, 
 	// type | null
 	finalType := nonNullTypes[0]
 	finalType.Nullable = true
+	if finalType.Default == nil {
+		// the default declared on the union (`string | null | *"abc"`) belongs to the type that remains
+		finalType.Default = def.Default
+	}
 	finalType.AddToPassesTrail(fmt.Sprintf("DisjunctionWithNullToOptional[%[1]s|null → %[1]s?]", ast.TypeName(finalType)))
 
 	return finalType, nil
